@@ -124,7 +124,9 @@ fn shape_to_geo(case: &str, ty: i32, i: usize, ctx: &Ctx, rep: &mut Report) {
         }
         (build_from_parts(ty, &input, false), stars)
     } else {
-        let c = Cfg::hostile(0.2, 4, 6);
+        // every third case on the tiny integer grid: consecutive vertices sharing X and Y, repeated
+        // points and zero-length segments are the rule there
+        let c = if i % 3 == 1 { Cfg { pool: Pool::Grid, ..Cfg::hostile(0.0, 4, 6) } } else { Cfg::hostile(0.2, 4, 6) };
         (gen::shape(ty, &mut r, &c), true)
     };
     let d = shape.d();
